@@ -397,6 +397,7 @@ func VerifH_PerformPrecommitStep() {
 	}
 	specs := make([]*EntrySpec, ne)
 	kls := []int{verifrt.Param("kl1"), verifrt.Param("kl2")}
+	vls := []int{verifrt.Param("vl1"), verifrt.Param("vl2")} // lengths of the embedded values
 	for i := 0; i < ne; i++ {
 		e := tx.entries[i]
 		key := verifrt.Bytes("key", kls[i])
@@ -406,7 +407,7 @@ func VerifH_PerformPrecommitStep() {
 		}
 		specs[i] = &EntrySpec{Key: key, Metadata: e.md}
 		if embedded {
-			specs[i].Value = verifrt.BytesUpTo("value", 2)
+			specs[i].Value = verifrt.Bytes("value", vls[i])
 			e.vLen = len(specs[i].Value)
 		} else {
 			e.vLen, e.vOff = int(verifrt.U32("vLen")), verifrt.I64("vOff")
